@@ -54,6 +54,7 @@ func Main(property string, gen func(tier string) []Scenario) {
 	replay := flag.String("replay", "", "replay file")
 	only := flag.String("only", "", "run only scenarios whose name contains this")
 	maxb := flag.Int("maxbound", -1, "override every scenario's bound")
+	nomemo := flag.Bool("nomemo", false, "disable the happens-before memo (self-test: the outcome sets must not change)")
 	flag.Parse()
 	var si, sn int
 	fmt.Sscanf(*shard, "%d/%d", &si, &sn)
@@ -82,6 +83,9 @@ func Main(property string, gen func(tier string) []Scenario) {
 	for i, sc := range sel {
 		if *maxb >= 0 {
 			sc.Bound = *maxb
+		}
+		if *nomemo {
+			sc.Memo = false
 		}
 		remaining := total - time.Since(start)
 		if remaining < 0 {
